@@ -2,6 +2,7 @@ package gen
 
 import (
 	"fmt"
+	"os"
 	"reflect"
 
 	"pgregory.net/rapid"
@@ -372,7 +373,7 @@ func genAssign(t *rapid.T, c RuleSetCfg, rs *RuleSet, xg *XG) gast.Stmt {
 		}
 		e, inf := xg.Int(depth)
 		e = xg.NoBarePtr(e, false)
-		if len(xg.IntPool) > 0 && rapid.IntRange(0, 3).Draw(t, "shared_subexpr") == 0 {
+		if len(xg.IntPool) > 0 && os.Getenv("VERIF_NO_SHARED") == "" && rapid.IntRange(0, 3).Draw(t, "shared_subexpr") == 0 {
 			// repeat a computed sub-expression of an earlier condition or action verbatim
 			e = gast.Clone(xg.IntPool[rapid.IntRange(0, len(xg.IntPool)-1).Draw(t, "shared_pick")])
 			inf = IntInfo{Exact: true}
@@ -411,7 +412,7 @@ func genAssign(t *rapid.T, c RuleSetCfg, rs *RuleSet, xg *XG) gast.Stmt {
 			return &gast.Assign{LHS: p.Mk(), Op: op, RHS: xg.NoBarePtr(e, false)}
 		}
 		e, _ := xg.Float(depth)
-		if len(xg.FloatPool) > 0 && rapid.IntRange(0, 3).Draw(t, "shared_subexpr") == 0 {
+		if len(xg.FloatPool) > 0 && os.Getenv("VERIF_NO_SHARED") == "" && rapid.IntRange(0, 3).Draw(t, "shared_subexpr") == 0 {
 			e = gast.Clone(xg.FloatPool[rapid.IntRange(0, len(xg.FloatPool)-1).Draw(t, "shared_pick")])
 			rs.Feat["rhs_repeats_earlier_subexpression"]++
 		}
